@@ -892,6 +892,26 @@ func c06Hostile(c *core.Ctx, p c06Params) {
 			if nph < 2 {
 				continue
 			}
+			// the same pattern again with its anonymous placeholders named (a duplicate): refused
+			// too, and - checked with the lookups below - without any effect on what is registered
+			rel := ref.Tokens(strings.TrimPrefix(strings.TrimPrefix(rt.Pattern, rootPath), "."))
+			if rootPath == "" {
+				rel = ref.Tokens(rt.Pattern)
+			}
+			hasAnon := false
+			for i, t := range rel {
+				if ref.ClassifyToken(t) == ref.TokAnon {
+					rel[i], hasAnon = fmt.Sprintf("$late%d", i), true
+				}
+			}
+			if hasAnon {
+				c.Obs("late_duplicate_registrations", 1)
+				if pn := try(func() { cfg.mux.AddHandler(strings.Join(rel, "."), res.Handler{}) }); pn == nil {
+					c.Violation("C06/register-accepts-conflict:late-duplicate", fmt.Sprintf("AddHandler(%q) was accepted on a Mux that already held %q", strings.Join(rel, "."), rt.Pattern),
+						map[string]interface{}{"pattern": strings.Join(rel, "."), "registered_before": routes, "root_path": rootPath})
+					break
+				}
+			}
 			bad := strings.Join(append(toks, "dupleaf"), ".")
 			c.Eval(1)
 			c.Obs("late_invalid_registrations", 1)
@@ -899,6 +919,13 @@ func c06Hostile(c *core.Ctx, p c06Params) {
 				c.Violation("C06/accepts-invalid:dup-tag-after-earlier-registrations", fmt.Sprintf("AddHandler(%q) was accepted on a Mux that already held %q: the placeholder name $dup occurs twice", bad, rt.Pattern),
 					map[string]interface{}{"pattern": bad, "registered_before": routes, "root_path": rootPath})
 				break
+			}
+		}
+		// refused registrations leave the Mux as it was: the lookups give what they gave before
+		cfg.arr = "mixed/after-refused-registrations"
+		for _, rt := range routes {
+			for k := 0; k < 3; k++ {
+				c06CheckLookup(c, cfg, c17Instantiate(r, rt.Pattern, k == 2))
 			}
 		}
 	}
